@@ -783,14 +783,21 @@ func (e *Env) trCall(x *ECall) TV {
 		}
 		return TV{T: IntLit(int64(e.vc.w.TagOf(t)))}
 	case "ptrtag":
-		id, ok := x.Args[0].(*EIdent)
-		if !ok {
+		name := ""
+		switch a := x.Args[0].(type) {
+		case *EIdent:
+			name = a.Name
+		case *ESel:
+			if id, ok := a.X.(*EIdent); ok {
+				name = id.Name + "." + a.Field
+			}
+		}
+		if name == "" {
 			trFail("ptrtag(T)")
 		}
-		t := e.vc.w.LookupType(id.Name, e.pkg)
+		t := e.vc.w.LookupType(name, e.pkg)
 		if t == nil {
-			// qualified a.B written as selector
-			trFail("ptrtag(%s): unknown type", id.Name)
+			trFail("ptrtag(%s): unknown type", name)
 		}
 		return TV{T: IntLit(int64(e.vc.w.TagOf(types.NewPointer(t))))}
 	case "iref":
